@@ -3,6 +3,7 @@
 //! verification hook inside an unchecked accessor is reported as `(-9)` (never a model result).
 mod sx;
 mod num;
+mod shapes;
 mod c00;
 #[cfg(feature = "c01")] mod c01;
 #[cfg(feature = "c02")] mod c02;
